@@ -67,4 +67,39 @@ func init() {
 		{Name: "benign-start-via-local", File: gff, Find: "\t\tFeatStart:  feat.OneToZero(start),", Replace: "\t\tFeatStart:  feat.OneToZero(start + 0),"},
 		{Name: "benign-count-variable-renamed", File: gff, Find: "\t\tvar _n int\n\t\t_n, err = w.w.Write([...][]byte{", Replace: "\t\tvar m int\n\t\tm, err = w.w.Write([...][]byte{", More: []edit{{gff, "\t\treturn n + _n, err\n", "\t\treturn n + m, err\n"}}},
 	}
+	const (
+		aln   = "seq/alignment/alignment.go"
+		qaln  = "seq/alignment/qalignment.go"
+		mult  = "seq/multi/multi.go"
+		utils = "seq/sequtils/utils.go"
+		lseq  = "seq/linear/seq.go"
+	)
+	cloneFaults := []variant{
+		{Name: "alignment-clone-subannotations-shared", File: aln, Find: "\tc.SubAnnotations = append([]seq.Annotation(nil), s.SubAnnotations...)\n", Replace: "", Rule: "fresh/clonedeep", Key: "alignment.(*Seq).Clone/SubAnnotations"},
+		{Name: "alignment-clone-columns-shared", File: aln, Find: "\t\tc.Seq[i] = append([]alphabet.Letter(nil), cs...)\n", Replace: "\t\tc.Seq[i] = cs\n", Rule: "fresh/clonedeep", Key: "alignment.(*Seq).Clone/Seq"},
+		{Name: "qalignment-clone-shallow-append", File: qaln, Find: "\tc.Seq = make([][]alphabet.QLetter, len(s.Seq))\n\tfor i, s := range s.Seq {\n\t\tc.Seq[i] = append([]alphabet.QLetter(nil), s...)\n\t}\n", Replace: "\tc.Seq = append([][]alphabet.QLetter(nil), s.Seq...)\n", Rule: "fresh/clonedeep", Key: "alignment.(*QSeq).Clone/Seq"},
+		{Name: "multi-clone-rows-shared", File: mult, Find: "\t\tc.Seq[i] = r.Clone().(seq.Sequence)\n", Replace: "\t\tc.Seq[i] = r\n", Rule: "fresh/clonedeep", Key: "multi.(*Multi).Clone/Seq"},
+		{Name: "linear-clone-shares-letters", File: lseq, Find: "\tc := *s\n\tc.Seq = append([]alphabet.Letter(nil), s.Seq...)\n\treturn &c", Replace: "\tc := *s\n\tc.Seq = s.Seq[:len(s.Seq):len(s.Seq)]\n\treturn &c", Rule: "fresh/clonedeep", Key: "linear.(*Seq).Clone/Seq"},
+		{Name: "benign-clone-make-copy", File: lseq, Find: "\tc := *s\n\tc.Seq = append([]alphabet.Letter(nil), s.Seq...)\n\treturn &c", Replace: "\tc := *s\n\tc.Seq = make([]alphabet.Letter, len(s.Seq))\n\tcopy(c.Seq, s.Seq)\n\treturn &c"},
+	}
+	selftests["C05"] = append(append([]variant{}, cloneFaults...),
+		variant{Name: "multi-revcomp-row-independent-offset", File: mult, Find: "\t\tr.RevComp()\n\t\tr.SetOffset(start + end - r.End())\n", Replace: "\t\tr.RevComp()\n\t\tr.SetOffset(start + end - m.End())\n", Rule: "loopdep", Key: "multi.(*Multi).RevComp/r.SetOffset"},
+		variant{Name: "multi-reverse-constant-offset", File: mult, Find: "\t\tr.Reverse()\n\t\tr.SetOffset(start + end - r.End())\n", Replace: "\t\tr.Reverse()\n\t\tr.SetOffset(start + end - m.End())\n", Rule: "loopdep", Key: "multi.(*Multi).Reverse/r.SetOffset"},
+		variant{Name: "benign-offset-via-local", File: mult, Find: "\t\tr.RevComp()\n\t\tr.SetOffset(start + end - r.End())\n", Replace: "\t\trowEnd := r.End()\n\t\tr.RevComp()\n\t\to := start + end - rowEnd\n\t\tr.SetOffset(o)\n"},
+	)
+	selftests["C06"] = []variant{
+		{Name: "truncate-shares-source", File: utils, Find: "\t\t\tdst.SetSlice(sl.Make(0, end-start).Append(sl.Slice(start-offset, end-offset)))\n", Replace: "\t\t\tdst.SetSlice(sl.Slice(start-offset, end-offset))\n", Rule: "fresh/freshdst", Key: "sequtils.Truncate/dst.SetSlice#2"},
+		{Name: "compose-segments-alias-source", File: utils, Find: "\t\tt[i] = sl.Make(l, l)\n\t\tt[i].Copy(sl.Slice(max(f.Start()-offset, 0), min(f.End()-offset, pLen)))\n", Replace: "\t\tt[i] = sl.Slice(max(f.Start()-offset, 0), min(f.End()-offset, pLen))\n", Rule: "fresh/freshdst", Key: "sequtils.Compose/r.SetSlice"},
+		{Name: "stitch-single-feature-shortcut-aliases", File: utils, Find: "\tdst.SetSlice(t)\n\tif dst, ok := dst.(seq.ConformationSetter); ok {\n\t\tdst.SetConformation(feat.Linear)\n\t}\n\tdst.SetOffset(0)\n\n\treturn nil\n}\n\ntype SliceReverser interface {", Replace: "\tif len(fsp) == 1 {\n\t\tdst.SetSlice(sl.Slice(max(fsp[0].s-offset, 0), min(fsp[0].e-offset, pLen)))\n\t} else {\n\t\tdst.SetSlice(t)\n\t}\n\tif dst, ok := dst.(seq.ConformationSetter); ok {\n\t\tdst.SetConformation(feat.Linear)\n\t}\n\tdst.SetOffset(0)\n\n\treturn nil\n}\n\ntype SliceReverser interface {", Rule: "fresh/freshdst", Key: "sequtils.Stitch/dst.SetSlice"},
+		{Name: "join-result-aliases-source", File: utils, Find: "\tt := dst.Slice().Make(srcLen, srcLen+dstSl.Len())\n\tt.Copy(srcSl)\n\to.SetSlice(t.Append(dstSl))\n", Replace: "\to.SetSlice(srcSl.Append(dstSl))\n", Rule: "fresh/freshdst", Key: "sequtils.Join/o.SetSlice"},
+		{Name: "compose-reverse-once", File: utils, Find: "\t\t\t\tr.SetSlice(ts)\n\t\t\t\tif _, ok := src.Alphabet().(alphabet.Complementor); ok {\n\t\t\t\t\tr.RevComp()\n\t\t\t\t} else {\n\t\t\t\t\tr.Reverse()\n\t\t\t\t}\n", Replace: "\t\t\t\tif r.Slice().Len() == 0 {\n\t\t\t\t\tr.SetSlice(ts)\n\t\t\t\t\tif _, ok := src.Alphabet().(alphabet.Complementor); ok {\n\t\t\t\t\t\tr.RevComp()\n\t\t\t\t\t} else {\n\t\t\t\t\t\tr.Reverse()\n\t\t\t\t\t}\n\t\t\t\t}\n", Rule: "mustpass", Key: "sequtils.Compose/append(r.Slice())"},
+		{Name: "compose-noncomplementor-not-reversed", File: utils, Find: "\t\t\t\t} else {\n\t\t\t\t\tr.Reverse()\n\t\t\t\t}\n", Replace: "\t\t\t\t}\n", Rule: "mustpass", Key: "sequtils.Compose/append(r.Slice())"},
+		{Name: "benign-make-copy-instead-of-append", File: utils, Find: "\t\t\tdst.SetSlice(sl.Make(0, end-start).Append(sl.Slice(start-offset, end-offset)))\n", Replace: "\t\t\tfresh := sl.Make(end-start, end-start)\n\t\t\tfresh.Copy(sl.Slice(start-offset, end-offset))\n\t\t\tdst.SetSlice(fresh)\n"},
+		{Name: "benign-fresh-reverser-per-feature", File: utils, Find: "\t\t\t\tif r == nil {\n\t\t\t\t\tr = src.New().(SliceReverser)\n\t\t\t\t\tif _, ok := src.Alphabet().(alphabet.Complementor); ok {\n\t\t\t\t\t\tr.SetAlphabet(src.Alphabet())\n\t\t\t\t\t}\n\t\t\t\t}\n", Replace: "\t\t\t\tr = src.New().(SliceReverser)\n\t\t\t\tif _, ok := src.Alphabet().(alphabet.Complementor); ok {\n\t\t\t\t\tr.SetAlphabet(src.Alphabet())\n\t\t\t\t}\n"},
+	}
+	selftests["C07"] = append(append([]variant{}, cloneFaults...),
+		variant{Name: "qseq-appendcolumns-retains", File: qaln, Find: "\ts.Seq = append(s.Seq, make([][]alphabet.QLetter, len(a))...)[:len(s.Seq)]\n\tfor _, c := range a {\n\t\ts.Seq = append(s.Seq, append([]alphabet.QLetter(nil), c...))\n\t}\n", Replace: "\ts.Seq = append(s.Seq, a...)\n", Rule: "fresh/retain", Key: "alignment.(*QSeq).AppendColumns/caller-buffers"},
+		variant{Name: "qseq-appendcolumns-retains-each", File: qaln, Find: "\t\ts.Seq = append(s.Seq, append([]alphabet.QLetter(nil), c...))\n", Replace: "\t\ts.Seq = append(s.Seq, c)\n", Rule: "fresh/retain", Key: "alignment.(*QSeq).AppendEach/caller-buffers"},
+		variant{Name: "benign-column-copy-make", File: qaln, Find: "\t\ts.Seq = append(s.Seq, append([]alphabet.QLetter(nil), c...))\n", Replace: "\t\tcol := make([]alphabet.QLetter, len(c))\n\t\tcopy(col, c)\n\t\ts.Seq = append(s.Seq, col)\n"},
+	)
 }
